@@ -16,6 +16,7 @@ use sliding_features::View;
 
 pub struct C02;
 
+pub const LONG_NS: [usize; 6] = [3, 17, 40, 64, 130, 250];
 pub const KINDS: [&str; 10] = ["Sma", "Cumulative", "Min", "Max", "WelfordOnline", "HLNormalizer", "Roc", "BinaryEntropy", "Vst", "Vsct"];
 
 pub fn kind_at(i: usize, n: usize) -> Kind {
@@ -251,7 +252,7 @@ fn run_f64(k: Kind, xs: &[f64], out: &mut TrialOut) {
 fn ns(cfg: &Cfg) -> Vec<usize> {
     match cfg.tier {
         Tier::Quick => vec![1, 2, 3, 4, 5, 7, 12, 30],
-        Tier::Thorough => (1..=64).chain([100, 257]).collect(),
+        Tier::Thorough => (1..=40).chain([48, 56, 64, 100, 257]).collect(),
     }
 }
 
@@ -264,12 +265,36 @@ impl Monitor for C02 {
         "C02"
     }
     fn plan(&self, cfg: &Cfg) -> u64 {
-        (ns(cfg).len() * KINDS.len() * classes().len()) as u64 * cfg.tier.pick(2, 6)
+        (ns(cfg).len() * KINDS.len() * classes().len()) as u64 * cfg.tier.pick(2, 4) + LONG_NS.len() as u64 * KINDS.len() as u64 * cfg.tier.pick(2, 8)
     }
     fn trial(&self, cfg: &Cfg, idx: u64, out: &mut TrialOut) {
         let nl = ns(cfg);
         let cl = classes();
         let mut rng = Rng::for_trial(cfg.seed, "C02", idx);
+        let main = (nl.len() * KINDS.len() * cl.len()) as u64 * cfg.tier.pick(2, 4);
+        if idx >= main {
+            // long histories and large windows: state that goes wrong only after thousands of
+            // updates, or only for windows beyond some internal threshold, must be reached too
+            let j = idx - main;
+            let ki = (j % KINDS.len() as u64) as usize;
+            let n = LONG_NS[((j / KINDS.len() as u64) % LONG_NS.len() as u64) as usize];
+            let rep = j / (KINDS.len() * LONG_NS.len()) as u64;
+            let k = kind_at(ki, n);
+            let class = *rng.pick(&[Class::Uniform, Class::Walk, Class::SmallInt, Class::Blocks]);
+            let exact = rep % 2 == 0;
+            // the exact run is O(N) big-rational operations per step: shorter for the largest windows
+            let len = if exact { (2600usize).min(120_000 / n.max(8)).max(4 * n + 700) } else { cfg.tier.pick(3000, 6000) + 4 * n };
+            let xs = gen::gen(class, n, len, &mut rng);
+            out.key(mix(hash_str(&format!("long{:?}{}", k, exact)), gen::hash_f64s(&xs)));
+            out.count("long_history_trials", 1);
+            out.maxi("longest_stream", len as f64);
+            if exact {
+                run_exact(k, &xs, out);
+            } else {
+                run_f64(k, &xs, out);
+            }
+            return;
+        }
         let ki = (idx % KINDS.len() as u64) as usize;
         let n = nl[((idx / KINDS.len() as u64) % nl.len() as u64) as usize];
         let class = cl[((idx / (KINDS.len() * nl.len()) as u64) % cl.len() as u64) as usize];
@@ -279,7 +304,7 @@ impl Monitor for C02 {
         let len = if exact {
             (4 * n + 50).min(cfg.tier.pick(260, 420))
         } else {
-            (4 * n + 50).max(cfg.tier.pick(400, 2000))
+            (4 * n + 50).max(cfg.tier.pick(400, 1200))
         };
         let xs = gen::gen(class, n, len, &mut rng);
         out.key(mix(hash_str(&format!("{:?}{}", k, exact)), gen::hash_f64s(&xs)));
@@ -310,7 +335,7 @@ impl Monitor for C02 {
         v
     }
     fn rule(&self) -> String {
-        "trial = (view kind of the ten listed, N, input class of the 18-class catalogue, scalar); the real view is fed the stream and after every update its last() (and WelfordOnline's mean()/variance()) is compared with the batch definition evaluated from the recorded history over the last min(t,N) values in exact rational arithmetic: equality at the exact scalar, a-priori rounding envelope (64 eps x steps x largest magnitude seen, scaled per statistic) at f64. distinct = distinct (kind, N, scalar, input hash); non-trivial = at least one Some output compared. Semantic counters (evictions, evictions of the current extremum, flat windows, ties, zero bases) are measured on the inputs by the oracle.".into()
+        "trial = (view kind of the ten listed, N, input class of the 18-class catalogue, scalar), plus long-history trials (2600..6000 values, N in {3, 17, 40, 64, 130, 250}); the real view is fed the stream and after every update its last() (and WelfordOnline's mean()/variance()) is compared with the batch definition evaluated from the recorded history over the last min(t,N) values in exact rational arithmetic: equality at the exact scalar, a-priori rounding envelope (64 eps x steps x largest magnitude seen, scaled per statistic) at f64. distinct = distinct (kind, N, scalar, input hash); non-trivial = at least one Some output compared. Semantic counters (evictions, evictions of the current extremum, flat windows, ties, zero bases) are measured on the inputs by the oracle.".into()
     }
     fn assumptions(&self) -> Vec<String> {
         vec![
